@@ -1,1 +1,103 @@
-harnesses! {}
+//! C08 — convex hull (PARTIAL: Graham scan and the <= 3-point path; quick-hull recursion and
+//! minimum_rotated_rect are not admitted, see DESIGN.md).  `T = i16`.
+use crate::gen::*;
+use crate::oracle::*;
+use crate::Src;
+use geo::convex_hull::graham_hull;
+use geo::ConvexHull;
+use geo_types::{Coord, LineString, MultiPoint, Point};
+
+/// the M distinct hull vertices `c` (in ring order) of the input multiset `pts`: strictly convex
+/// counter-clockwise, vertices are inputs, every input inside-or-on every edge.  M is a constant so
+/// that every index is concrete after unrolling.
+fn check_cycle<const M: usize>(c: [P; M], pts: &[P]) {
+    let mut i = 0;
+    while i < M {
+        let (a, b, d) = (c[i], c[(i + 1) % M], c[(i + 2) % M]);
+        assert!(orient(a, b, d) > 0, "hull is not strictly convex counter-clockwise (repeated vertex, vertex on an edge, or a clockwise turn)");
+        let mut is_input = false;
+        let mut k = 0;
+        while k < pts.len() {
+            if pts[k] == a {
+                is_input = true;
+            }
+            assert!(orient(a, b, pts[k]) >= 0, "an input coordinate lies outside the hull");
+            k += 1;
+        }
+        assert!(is_input, "a hull vertex is not an input coordinate");
+        i += 1;
+    }
+}
+
+/// hull ring h (closed) of the input multiset `pts` (>= 3 non-collinear, at most 4 points)
+fn check_hull(h: &LineString<I>, pts: &[P]) {
+    let v = &h.0;
+    let n = v.len();
+    assert!(n == 4 || (n == 5 && pts.len() >= 4), "hull has an impossible number of coordinates");
+    assert!(v[0] == v[n - 1], "hull ring is not closed");
+    let back = |c: Coord<I>| -> P { (c.x, c.y) };
+    if n == 4 {
+        check_cycle([back(v[0]), back(v[1]), back(v[2])], pts);
+    } else {
+        check_cycle([back(v[0]), back(v[1]), back(v[2]), back(v[3])], pts);
+    }
+}
+
+pub fn graham4<S: Src>(s: &mut S, n: i8, x0: Option<i8>) {
+    let a = match x0 {
+        Some(x) => gp_x(s, x, x, n),
+        None => gp(s, n),
+    };
+    let (b, c, d) = (gp(s, n), gp(s, n), gp(s, n));
+    let pts = [a, b, c, d];
+    // the property speaks about inputs with at least three non-collinear coordinates
+    vassume!(orient(a, b, c) != 0 || orient(a, b, d) != 0 || orient(a, c, d) != 0 || orient(b, c, d) != 0);
+    let mut v = vec![ci(a), ci(b), ci(c), ci(d)];
+    let h = graham_hull(&mut v, false);
+    check_hull(&h, &pts);
+    vcover!(h.0.len() == 4, "one input strictly inside or on an edge of the triangle of the others");
+    vcover!(h.0.len() == 5, "all four inputs are hull vertices");
+    vcover!(a == b, "duplicate input");
+    vcover!(orient(a, b, c) == 0 && a != b && b != c && a != c, "three collinear inputs");
+    core::mem::forget(h);
+    core::mem::forget(v);
+}
+
+/// the trait entry point on <= 3 coordinates (trivial_hull path of quick_hull)
+pub fn trivial3<S: Src>(s: &mut S, n: i8) {
+    let (a, b, c) = (gp(s, n), gp(s, n), gp(s, n));
+    let mp = MultiPoint(vec![Point(ci(a)), Point(ci(b)), Point(ci(c))]);
+    let hull = mp.convex_hull();
+    assert!(hull.interiors().is_empty(), "hull has holes");
+    let h = hull.exterior();
+    if orient(a, b, c) != 0 {
+        check_hull(h, &[a, b, c]);
+    } else {
+        // degenerate input: closed ring made of input coordinates only
+        let v = &h.0;
+        assert!(!v.is_empty() && v[0] == v[v.len() - 1], "degenerate hull is not closed");
+        let mut i = 0;
+        while i < v.len() {
+            assert!(v[i] == ci(a) || v[i] == ci(b) || v[i] == ci(c), "degenerate hull contains a coordinate that is not an input");
+            i += 1;
+        }
+    }
+    vcover!(orient(a, b, c) < 0, "clockwise input triangle (must be re-wound)");
+    vcover!(orient(a, b, c) == 0 && a != b && b != c && a != c, "three collinear distinct points");
+    core::mem::forget(hull);
+    core::mem::forget(mp);
+}
+
+harnesses! {
+    #[kani::unwind(7)] fn c08_trivial3_g3(s) { trivial3(s, 3) }
+    #[kani::unwind(7)] fn c08_graham4_g1(s) { graham4(s, 1, None) }
+    #[kani::unwind(7)] fn c08_graham4_g2_x0(s) { graham4(s, 2, Some(-2)) }
+    #[kani::unwind(7)] fn c08_graham4_g2_x1(s) { graham4(s, 2, Some(-1)) }
+    #[kani::unwind(7)] fn c08_graham4_g2_x2(s) { graham4(s, 2, Some(0)) }
+    #[kani::unwind(7)] fn c08_graham4_g2_x3(s) { graham4(s, 2, Some(1)) }
+    #[kani::unwind(7)] fn c08_graham4_g2_x4(s) { graham4(s, 2, Some(2)) }
+    #[kani::unwind(7)] fn c08_sanity_must_fail(s) {
+        trivial3(s, 2);
+        assert!(false, "sanity twin reached its end");
+    }
+}
